@@ -8,15 +8,21 @@ From EV Require Import Base.Bytes Base.Store Base.Monad gen.Consts Codec.Types H
 (* origin side: the caller's account lives on the executing shard *)
 Definition origin_input (i : input) : Prop := i_snd i = true.
 
-(* an NFT payload as the sender side emits it: if it decodes, the token has a value and metadata *)
+(* an NFT payload as the sender side emits it: if it decodes, the token has a value and metadata.  The
+   destination side of ESDTNFTTransfer dereferences both (Value in addNFTToDestination, TokenMetaData.Nonce for
+   the log entry); the destination side of MultiESDTNFTTransfer only the value ([payload_valued]). *)
 Definition payload_good (E : env) (b : bytes) : Prop :=
   forall t, dec_tok (cdc E) b = Some t -> t_value t <> None /\ t_meta t <> None.
+Definition payload_valued (E : env) (b : bytes) : Prop :=
+  forall t, dec_tok (cdc E) b = Some t -> t_value t <> None.
+Lemma payload_good_valued E b : payload_good E b -> payload_valued E b.
+Proof. intros H t Ht. apply (H t Ht). Qed.
 Definition nft_payload_ok (E : env) (A : list bytes) : Prop :=
   forall b, nth_error A (N.to_nat 3) = Some b -> payload_good E b.
 Definition multi_payload_ok (E : env) (A : list bytes) : Prop :=
   forall a0 idx nb b, nth_error A 0 = Some a0 -> (idx < bigU64 a0)%N ->
     nth_error A (N.to_nat (1 + idx * 3 + 1)) = Some nb -> (0 < bigU64 nb)%N ->
-    nth_error A (N.to_nat (1 + idx * 3 + 2)) = Some b -> payload_good E b.
+    nth_error A (N.to_nat (1 + idx * 3 + 2)) = Some b -> payload_valued E b.
 Definition args_payload_ok (E : env) (f : bytes) (A : list bytes) : Prop :=
   (f = C.BuiltInFunctionESDTNFTTransfer -> nft_payload_ok E A)
   /\ (f = C.BuiltInFunctionMultiESDTNFTTransfer -> multi_payload_ok E A).
@@ -24,15 +30,6 @@ Definition payload_ok (E : env) (f : bytes) (i : input) : Prop := args_payload_o
 (* destination side: a protocol-generated message (cross-shard hand-over, refund, system-contract call) *)
 Definition delivered_input (E : env) (f : bytes) (i : input) : Prop :=
   i_snd i = false /\ i_dst i = true /\ i_caller i <> i_rcpt i /\ payload_ok E f i.
-
-(* FINDING F11 (open): a same-shard MultiESDTNFTTransfer item with nonce 0 (a token without metadata) whose
-   destination entry under the same storage key carries metadata makes addNFTToDestination dereference the nil
-   TokenMetaData of the incoming token.  The class is excluded here: on the destination's own shard every
-   item names a nonce > 0. *)
-Definition multi_local_items_nft (E : env) (i : input) : Prop :=
-  forall dst a1, nth_error (i_args i) 0 = Some dst -> self_shard E = shard_of E dst ->
-    nth_error (i_args i) 1 = Some a1 ->
-    forall idx nb, (idx < bigU64 a1)%N -> nth_error (i_args i) (N.to_nat (2 + idx * 3 + 1)) = Some nb -> bigU64 nb <> 0%N.
 
 Section Transfers.
   Variable E : env.
@@ -85,32 +82,29 @@ Section Transfers.
   Definition tokgood (p : bytes * token) : Prop := wf_token (snd p) /\ t_value (snd p) <> None.
 
   Lemma safe_transfer_one_sender snd caller dstLocal dst tok nonce q verify rae :
-    (strict -> snd = true) -> (strict -> dstLocal = true -> nonce <> 0%N) ->
+    (strict -> snd = true) ->
     safe E st (transfer_one_sender E snd caller dstLocal dst tok nonce q verify rae)
          (fun t => wf_token t /\ t_value t <> None).
   Proof.
-    intros Hsnd Hnz. unfold transfer_one_sender. safe_tac0 E Hc.
+    intros Hsnd. unfold transfer_one_sender. safe_tac0 E Hc.
     safe_ifT E; [safe_tac0 E Hc..|]. safe_tac0 E Hc.
     - match goal with H : exists v, _ = set_value _ (Some v) |- _ => destruct H as (v & ->) end.
       split; [wf_solve|discriminate].
     - split; [wf_solve|discriminate].
   Qed.
 
-  Lemma safe_multi_sender_loop i dstLocal dst verify nmax :
+  Lemma safe_multi_sender_loop i dstLocal dst verify :
     (strict -> i_snd i = true) ->
-    (strict -> dstLocal = true -> forall idx nb, (idx < nmax)%N ->
-       nth_error (i_args i) (N.to_nat (2 + idx * 3 + 1)) = Some nb -> bigU64 nb <> 0%N) ->
     forall fuel idx acc logs,
-      (strict -> (idx + N.of_nat fuel <= nmax)%N /\ (2 + (idx + N.of_nat fuel) * 3 <= alen (i_args i))%N) ->
+      (strict -> (2 + (idx + N.of_nat fuel) * 3 <= alen (i_args i))%N) ->
       Forall tokgood acc ->
       safe E st (multi_sender_loop E fuel i dstLocal dst verify idx acc logs) (fun r => Forall tokgood (fst r)).
   Proof.
-    intros Hsnd Hnz. induction fuel as [|f IH]; intros idx acc logs Hb Hacc.
+    intros Hsnd. induction fuel as [|f IH]; intros idx acc logs Hb Hacc.
     - cbn [multi_sender_loop]. apply (safe_ret E). cbn [fst]. apply Forall_rev. exact Hacc.
     - cbn [multi_sender_loop]. safe_tac0 E Hc.
-      eapply (safe_bind E).
-      { apply safe_transfer_one_sender; [exact Hsnd|]. intros Hst Hd. destruct (Hb Hst). eapply Hnz; eauto. lia. }
-      safe_intro. cbv zeta. apply IH; [intros Hst; destruct (Hb Hst); lia|].
+      eapply (safe_bind E); [apply safe_transfer_one_sender; exact Hsnd|].
+      safe_intro. cbv zeta. apply IH; [intros Hst; specialize (Hb Hst); lia|].
       constructor; [split; assumption|exact Hacc].
   Qed.
 
@@ -134,10 +128,9 @@ Section Transfers.
 
   Lemma safe_f_multi_transfer_sender i :
     (strict -> i_snd i = true) -> (4 <= alen (i_args i))%N -> (strict -> (alen (i_args i) < 1099511627776)%N) ->
-    (strict -> multi_local_items_nft E i) ->
     safe E st (f_multi_transfer_sender E i) rcok.
   Proof.
-    intros Hsnd Hlen4 Hlen HF11. unfold f_multi_transfer_sender. safe_tac0 E Hc.
+    intros Hsnd Hlen4 Hlen. unfold f_multi_transfer_sender. safe_tac0 E Hc.
     safe_ifT E; [safe_tac0 E Hc..|].
     unfold apt, C.bif_argumentsPerTransfer in *.
     match goal with H : negb (alen _ / 3 <? bigU64 ?a1)%N = true |- _ =>
@@ -148,8 +141,7 @@ Section Transfers.
     end.
     do 3 (eapply (safe_bind E); [apply (safe_alloc E); safe_side|intros _ _]).
     eapply (safe_bind E) with (Q := fun r => Forall tokgood (fst r)).
-    { apply safe_multi_sender_loop with (nmax := n); [exact Hsnd| |intros Hst; specialize (Hmin Hst); lia|constructor].
-      intros Hst Hd idx nb Hidx Hnb. apply N.eqb_eq in Hd. eapply (HF11 Hst); eauto. }
+    { apply safe_multi_sender_loop; [exact Hsnd|intros Hst; specialize (Hmin Hst); lia|constructor]. }
     intros [lst logs] Hl. cbn [fst] in Hl.
     safe_ifT E; [safe_tac0 E Hc..|].
     eapply (safe_bind E); [apply (safe_alloc E); intros Hst; specialize (Hlen Hst); pose proof (u64_le (3 * n + 1)); lia|intros _ _].
@@ -161,7 +153,7 @@ Section Transfers.
   Lemma safe_multi_dest_loop i minArgs nmax :
     (strict -> forall idx nb b, (idx < nmax)%N ->
        nth_error (i_args i) (N.to_nat (1 + idx * 3 + 1)) = Some nb -> (0 < bigU64 nb)%N ->
-       nth_error (i_args i) (N.to_nat (1 + idx * 3 + 2)) = Some b -> payload_good E b) ->
+       nth_error (i_args i) (N.to_nat (1 + idx * 3 + 2)) = Some b -> payload_valued E b) ->
     forall fuel idx logs,
       (strict -> (idx + N.of_nat fuel <= nmax)%N /\ (1 + (idx + N.of_nat fuel) * 3 <= alen (i_args i))%N) ->
       safe E st (multi_dest_loop E fuel i minArgs idx logs) (fun _ => True).
@@ -172,7 +164,7 @@ Section Transfers.
       safe_ifT E.
       + safe_tac0 E Hc.
         match goal with Hd : dec_tok (cdc E) _ = Some ?t |- _ =>
-          assert (Hp : strict -> t_value t <> None /\ t_meta t <> None);
+          assert (Hp : strict -> t_value t <> None);
           [intros Hst; destruct (Hb Hst); eapply (Hpay Hst idx); eauto; lia|] end.
         safe_tac0 E Hc.
       + safe_tac0 E Hc.
@@ -181,15 +173,13 @@ Section Transfers.
 
   Lemma safe_f_multi_transfer i :
     (strict -> (alen (i_args i) < 1099511627776)%N) ->
-    (strict -> (i_snd i = true /\ (i_caller i = i_rcpt i -> multi_local_items_nft E i))
-               \/ (i_caller i <> i_rcpt i /\ multi_payload_ok E (i_args i))) ->
+    (strict -> i_snd i = true \/ (i_caller i <> i_rcpt i /\ multi_payload_ok E (i_args i))) ->
     safe E st (f_multi_transfer E i) rcok.
   Proof.
     intros Hlen Hin. unfold f_multi_transfer. do 2 (safe_step0 E Hc).
     destruct (beqb (i_caller i) (i_rcpt i)) eqn:Ecr.
-    - apply beqb_true in Ecr. apply safe_f_multi_transfer_sender; [|lia|exact Hlen|].
-      + intros Hst. destruct (Hin Hst) as [[Ho _]|[Hne _]]; [exact Ho|contradiction].
-      + intros Hst. destruct (Hin Hst) as [[_ HF]|[Hne _]]; [exact (HF Ecr)|contradiction].
+    - apply beqb_true in Ecr. apply safe_f_multi_transfer_sender; [|lia|exact Hlen].
+      intros Hst. destruct (Hin Hst) as [Ho|[Hne _]]; [exact Ho|contradiction].
     - safe_tac0 E Hc.
       unfold apt, C.bif_argumentsPerTransfer in *.
       match goal with H : negb (alen _ / 3 <? bigU64 ?a1)%N = true |- _ =>
@@ -202,22 +192,18 @@ Section Transfers.
       eapply (safe_bind E).
       { apply safe_multi_dest_loop with (nmax := n); [|intros Hst; specialize (Hmin Hst); lia].
         intros Hst idx nb b Hidx Hnb Hpos Hb.
-        destruct (Hin Hst) as [[Ho _]|[_ Hp]]; [rewrite Ho in *; discriminate|].
+        destruct (Hin Hst) as [Ho|[_ Hp]]; [rewrite Ho in *; discriminate|].
         eapply (Hp _ idx); eauto. }
       intros logs _. safe_tac E Hc. all: rc_ok.
   Qed.
 
   (* ---------------- exec ---------------- *)
-  Definition f11_excluded (f : bytes) (i : input) : Prop :=
-    f = C.BuiltInFunctionMultiESDTNFTTransfer -> i_caller i = i_rcpt i -> multi_local_items_nft E i.
-
   Theorem safe_exec f i :
     (strict -> (alen (i_args i) < 1099511627776)%N) ->
     (strict -> origin_input i \/ delivered_input E f i) ->
-    (strict -> f11_excluded f i) ->
     safe E st (exec E f i) rcok.
   Proof.
-    intros Hlen Hin HF. unfold exec.
+    intros Hlen Hin. unfold exec.
     repeat match goal with |- safe _ _ (if beqb f ?c then _ else _) _ => destruct (beqb_spec f c) as [Heq|?] end.
     all: try solve [ first
       [ apply safe_f_claim_rewards | apply safe_f_change_owner | apply safe_f_set_user_name
@@ -232,7 +218,7 @@ Section Transfers.
       split; [exact Hne|apply Hp; exact Heq].
     - (* MultiESDTNFTTransfer *)
       apply safe_f_multi_transfer; [exact Hlen|]. intros Hst.
-      destruct (Hin Hst) as [Ho|(_ & _ & Hne & _ & Hp)]; [left; split; [exact Ho|apply (HF Hst); exact Heq]|right].
+      destruct (Hin Hst) as [Ho|(_ & _ & Hne & _ & Hp)]; [left; exact Ho|right].
       split; [exact Hne|apply Hp; exact Heq].
   Qed.
 End Transfers.
@@ -243,10 +229,9 @@ Theorem exec_no_panic E f i s :
   codec_ok (cdc E) -> flag_ok (cdc E) -> StoreOK E s ->
   origin_input i \/ delivered_input E f i ->
   (alen (i_args i) < 2 ^ 40)%N ->
-  f11_excluded E f i ->
   fst (exec E f i s) <> Panic.
 Proof.
-  intros Hc Hf Hs Hin Hlen HF. change (2 ^ 40)%N with 1099511627776%N in Hlen.
+  intros Hc Hf Hs Hin Hlen. change (2 ^ 40)%N with 1099511627776%N in Hlen.
   apply (safe_nopanic E true _ (fun o => o_rc o = C.Ok)); [reflexivity| |exact Hs].
   apply safe_exec; auto.
 Qed.
@@ -265,11 +250,10 @@ Theorem exec_total E f i s :
   codec_ok (cdc E) -> flag_ok (cdc E) -> StoreOK E s ->
   origin_input i \/ delivered_input E f i ->
   (alen (i_args i) < 2 ^ 40)%N ->
-  f11_excluded E f i ->
   (exists o s', exec E f i s = (Ok o, s') /\ o_rc o = C.Ok /\ StoreOK E s')
   \/ (exists e s', exec E f i s = (Err e, s')).
 Proof.
-  intros Hc Hf Hs Hin Hlen HF. change (2 ^ 40)%N with 1099511627776%N in Hlen.
+  intros Hc Hf Hs Hin Hlen. change (2 ^ 40)%N with 1099511627776%N in Hlen.
   assert (H : safe E true (exec E f i) (fun o => o_rc o = C.Ok)) by (apply safe_exec; auto).
   specialize (H s Hs). destruct (exec E f i s) as [[o|e|] s'].
   - left. exists o, s'. destruct H. auto.
